@@ -145,7 +145,11 @@ def run(check):
       continue
     grf = cx.cfg(rf)
     loads = nodes_calling(grf, lambda c, loader=loader: dotted(c.func) == loader)
-    assigns = [n for n in loads if isinstance(n.ast, ast.Assign) and any(dotted(t) == gname for t in n.ast.targets)]
+    def is_global_target(t, gname=gname):
+      # SCHEMAS = ...   /   globals()['SCHEMAS'] = ...
+      return dotted(t) == gname or (isinstance(t, ast.Subscript) and isinstance(t.value, ast.Call) and dotted(t.value.func) == 'globals' and
+                                    isinstance(t.slice, ast.Constant) and t.slice.value == gname)
+    assigns = [n for n in loads if isinstance(n.ast, ast.Assign) and any(is_global_target(t) for t in n.ast.targets)]
     if assigns and grf.exit not in grf.reach([grf.entry], removed_nodes=set(assigns), normal_only=True):
       r_fm.ok('%s re-reads the file on every tick (%s = %s())' % (rname, gname, loader), rf.loc(assigns[0].ast))
     else:
